@@ -21,6 +21,12 @@ let nt k = if kv "nt" k = "1" then "nontrivial" else "trivial"
 let run_c13 toks obs =
   with_trace toks obs (fun id k evs tr ->
     if not (accepts notifier_step None tr) then Printf.sprintf "PROPFAIL %s sig=notifier-not-exact a send-notifier run is not immediately followed by the write of the frame it announces (or a call/notification frame was written unannounced)" id
+    else if (let qs = List.filter_map (function ANotifier q when ZZ.geq (Values.z_of_coq q) ZZ.zero -> Some (ZZ.to_string (Values.z_of_coq q)) | _ -> None) tr in
+             List.length (List.sort_uniq compare qs) <> List.length qs) then
+      Printf.sprintf "PROPFAIL %s sig=notifier-twice the send notifier ran more than once for one call (same seqno)" id
+    else if (let ws = List.filter_map (function AWrite fi | AWriteFail fi when (fi.fi_kind = KCall || fi.fi_kind = KCallC) -> Some (ZZ.to_string (Values.z_of_coq fi.fi_seq)) | _ -> None) tr in
+             List.length (List.sort_uniq compare ws) <> List.length ws) then
+      Printf.sprintf "PROPFAIL %s sig=call-frame-handed-over-twice one call frame (same seqno) was handed to the connection more than once" id
     else if not (accepts seqno_step [] tr) then Printf.sprintf "PROPFAIL %s sig=seqno-reused two call frames on the wire carry the same sequence number" id
     else if not (accepts cancel_step [] tr) then Printf.sprintf "PROPFAIL %s sig=cancel-before-call a cancellation frame precedes its call frame on the wire" id
     else if not (accepts order_step { o_returned = []; o_befores = []; o_written = [] } tr) then Printf.sprintf "PROPFAIL %s sig=order-not-kept a send that began after another had returned reached the wire before it" id
@@ -88,6 +94,24 @@ let run_e2ec toks obs =
            else Printf.sprintf "AGREE %s nontrivial" id)
   | _ -> "SKIP"
 
+let run_e2eb toks obs =
+  match toks with
+  | "e2eb" :: id :: _ ->
+      (match Hashtbl.find_opt obs id with
+       | None -> Printf.sprintf "MISMATCH %s no-observation" id
+       | Some ot ->
+           let okv = parse_kv (List.tl (List.tl ot)) in
+           let iv x = try int_of_string (kv x okv) with _ -> -1 in
+           if kv "panic" okv <> "" then Printf.sprintf "PROPFAIL %s sig=panic %s" id (kv "panic" okv)
+           else if kv "setup" okv <> "" then Printf.sprintf "MISMATCH %s could not set up a loopback pair" id
+           else if iv "started" < iv "n" then Printf.sprintf "MISMATCH %s harness wait timed out: only %d of %d handlers started" id (iv "started") (iv "n")
+           else if iv "returned" < iv "n" then
+             Printf.sprintf "PROPFAIL %s sig=cancel-not-prompt:e2e-burst %d of %d calls cancelled together behind a stuck writer did not return within 3 s" id (iv "n" - iv "returned") (iv "n")
+           else if iv "cancelled" < iv "n" then
+             Printf.sprintf "PROPFAIL %s sig=cancel-does-not-reach-handler:e2e-burst %d calls were cancelled together while the writer was stuck; once the peer read again only %d of their handlers saw their context cancelled" id (iv "n") (iv "cancelled")
+           else Printf.sprintf "AGREE %s nontrivial" id)
+  | _ -> "SKIP"
+
 let run_e2en toks obs =
   match toks with
   | "e2en" :: id :: rest ->
@@ -111,7 +135,11 @@ let run_cc toks obs =
        | None -> Printf.sprintf "MISMATCH %s no-observation" id
        | Some ot ->
            let okv = parse_kv (List.tl (List.tl ot)) in
+           let k = parse_kv rest in
+           let maxret = (try int_of_string (kv "maxret" k) with _ -> 0) and retms = (try int_of_string (kv "retms" okv) with _ -> 0) in
            if kv "panic" okv <> "" then Printf.sprintf "PROPFAIL %s sig=panic %s" id (kv "panic" okv)
+           else if maxret > 0 && retms > maxret then
+             Printf.sprintf "PROPFAIL %s sig=cancel-not-prompt:connection-client-retry a call with a %s ms timeout made through the Connection's client returned after %d ms (every attempt carries the timeout: at most %d ms here)" id (kv "timeout" k) retms maxret
            else if kv "atret" okv <> kv "after" okv then
              Printf.sprintf "PROPFAIL %s sig=late-write:connection-client the result value of a call made through the Connection's client changed after the call had returned (%s at return after %s ms, %s later; error %s)" id
                (kv "atret" okv) (kv "retms" okv) (kv "after" okv) (kv "err" okv)
@@ -133,7 +161,7 @@ let quiescent_prefixes_ok k (evs : string list) : bool =
   go [] evs
 
 let run_c09 toks obs =
-  match toks with "e2ec" :: _ -> run_e2ec toks obs | "e2en" :: _ -> run_e2en toks obs | _ ->
+  match toks with "e2ec" :: _ -> run_e2ec toks obs | "e2eb" :: _ -> run_e2eb toks obs | "e2en" :: _ -> run_e2en toks obs | _ ->
   with_trace toks obs (fun id k evs tr ->
     if not (c09_only_own tr) then Printf.sprintf "PROPFAIL %s sig=%s a handler's context was cancelled although its caller did not cancel it and the transport was not closing" id
         (if kv "family" k = "" then "foreign-cancel" else "foreign-cancel:" ^ kv "family" k)
